@@ -83,7 +83,7 @@ def schema_check(node):
     return True, x
 
 
-def make_hook(target_func, target_ordinal, stats=None, capture=False, head_assume=None):
+def make_hook(target_func, target_ordinal, stats=None, capture=False, head_assume=None, inner_contracts=None):
     """capture=True (step / extent obligations): the LoopSummarized info also carries the buffer the real prefix
     computed before the loop (x0), the havocked buffer (old), the buffer after one iteration (new) and the local
     variables after the iteration (env), so that a contract can relate them to the spec"""
@@ -107,6 +107,11 @@ def make_hook(target_func, target_ordinal, stats=None, capture=False, head_assum
         body_assigned = assigned_names(node.body)
         target = loops[target_ordinal] if target_ordinal is not None else None  # None: every while is summarised
         encloses_target = target is not None and (node is target or any(n is target for n in ast.walk(node)))
+        if not encloses_target and inner_contracts and ordinal in inner_contracts:
+            # a loop nested in the target's body that has a functional contract (proved by its own step unit):
+            # the contract computes the state after the loop from the state at its head
+            inner_contracts[ordinal](frame, x)
+            return True
         if not encloses_target:
             # a loop nested in the target's body, or preceding the target: replaced by its summary (it has its own
             # variant unit): terminates; the buffer it consumes does not grow; accumulators are only appended to;
@@ -155,6 +160,20 @@ def make_hook(target_func, target_ordinal, stats=None, capture=False, head_assum
             elif cur is not _MISSING:
                 # must be (re)assigned before it is read in the body: a read makes the unit undecided
                 frame.env[v] = _Poison(v)
+        limit = None
+        if capture and ordinal == target_ordinal:
+            # a test of the form  len(X) and len(ACC) < E : the loop also stops after E elements; E is evaluated in the
+            # loop-head state so that the contract can compare it with the count the standard specifies
+            t = node.test
+            if isinstance(t, ast.BoolOp) and isinstance(t.op, ast.And) and len(t.values) == 2:
+                c = t.values[1]
+                if (isinstance(c, ast.Compare) and len(c.ops) == 1 and isinstance(c.ops[0], ast.Lt) and isinstance(c.left, ast.Call)
+                        and isinstance(c.left.func, ast.Name) and c.left.func.id == "len" and len(c.left.args) == 1 and isinstance(c.left.args[0], ast.Name)):
+                    limit = (c.left.args[0].id, frame.ev(c.comparators[0]))
+                else:
+                    limit = ("?", None)  # a second conjunct of another shape: not understood
+            elif isinstance(t, ast.BoolOp):
+                limit = ("?", None)
         if head_assume is not None and ordinal == target_ordinal:
             # precondition of the step obligation on the (fresh) loop-head buffer, known to the body's execution
             for c in head_assume(frame, old):
@@ -175,7 +194,7 @@ def make_hook(target_func, target_ordinal, stats=None, capture=False, head_assum
                 stats["reached"] = stats.get("reached", 0) + 1
             info = dict(reached=True, variant=cond, old_len=V.buf_len(old), new_len=V.buf_len(new) if V.is_buffer(new) else None)
             if capture:
-                info.update(x0=x0, old=old, new=new, env=dict(frame.env), buffer_name=x)
+                info.update(x0=x0, old=old, new=new, env=dict(frame.env), buffer_name=x, limit=limit)
             raise LoopSummarized(info)
         # a loop enclosing / preceding the target: leave it after this iteration, buffer exhausted
         frame.env[x] = V.SBytes([], True)
